@@ -24,7 +24,7 @@ for sid in ids:
             verdict = "PATCH-DOES-NOT-APPLY"
         else:
             env = dict(os.environ, PYBROPS_REPO=wt, PBT_REPLAY_DIR=os.path.join(wt, "_replays"), VERIF_SEED=seed)
-            c = subprocess.run(["/verif/check", prop, "--tier", "quick", "--no-evidence"], env=env, cwd=HERE, capture_output=True, text=True, timeout=7200)
+            c = subprocess.run(["/verif/check", prop, "--tier", "quick", "--no-evidence"] + (["--jobs", os.environ["SEEDROBUST_JOBS"]] if os.environ.get("SEEDROBUST_JOBS") else []), env=env, cwd=HERE, capture_output=True, text=True, timeout=7200)
             verdict = {1: "CAUGHT", 0: "MISSED"}.get(c.returncode, "HARNESS-ERROR")
     finally:
         subprocess.run("git -C /repo worktree remove --force %s" % wt, shell=True, capture_output=True)
